@@ -65,6 +65,33 @@ fn base(kind: u8) -> u8 {
     }
 }
 
+/// a third of the cases hand over descriptor numbers above 1100 (beyond FD_SETSIZE: nothing in the
+/// wake-up path may depend on select-style sets or on small numbers); derived from `case.k`
+static HIGH_FDS: std::sync::atomic::AtomicBool = std::sync::atomic::AtomicBool::new(false);
+
+fn lift(fd: i32) -> i32 {
+    if !HIGH_FDS.load(std::sync::atomic::Ordering::Relaxed) {
+        return fd;
+    }
+    let n = unsafe { libc::fcntl(fd, libc::F_DUPFD, 1100) };
+    if n < 0 {
+        return fd;
+    }
+    unsafe { libc::close(fd) };
+    n
+}
+
+/// the reuse probes need "the same number again": for lifted numbers the kernel's lowest-free rule
+/// does not provide it, so move the new pipe's write end there
+fn retake(p: &mut [i32; 2], want: i32) {
+    if want >= 1100 && p[0] != want && p[1] != want && unsafe { libc::fcntl(want, libc::F_GETFD) } < 0 {
+        if unsafe { libc::dup2(p[1], want) } == want {
+            unsafe { libc::close(p[1]) };
+            p[1] = want;
+        }
+    }
+}
+
 fn make_pair(kind: u8) -> Option<(i32, i32)> {
     let kind = base(kind);
     let mut fds = [0i32; 2];
@@ -82,6 +109,7 @@ fn make_pair(kind: u8) -> Option<(i32, i32)> {
     // for a pipe fds[0] is the read end; for socket pairs either works: read from 0, write to 1.
     // The harness reads without blocking.
     set_nonblock(fds[0]);
+    fds[1] = lift(fds[1]);
     Some((fds[0], fds[1]))
 }
 
@@ -152,6 +180,7 @@ fn child(case: &C13Case, fd: i32) {
     crate::vsched::install();
     ignore_sigpipe();
     let kind = case.kind % 5;
+    HIGH_FDS.store(case.k % 3 == 0, std::sync::atomic::Ordering::Relaxed);
     if !crate::sysspy::active() {
         emit(fd, &json!({"k": "infra", "what": "write/send interposition is not active in this executable"}));
         return;
@@ -205,6 +234,7 @@ fn child(case: &C13Case, fd: i32) {
         if wfd >= 0 && !still_open {
             let mut p = [0i32; 2];
             unsafe { libc::pipe(p.as_mut_ptr()) };
+            retake(&mut p, wfd);
             reuse = Some((p[0], p[1]));
         }
         emit(fd, &json!({"k": "reject", "res": res.as_ref().err().cloned().unwrap_or("ok".into()), "still_open": still_open, "unchanged": dispositions() == d0, "reused_number": reuse.map_or(false, |p| p.0 == wfd || p.1 == wfd)}));
@@ -347,6 +377,7 @@ fn child(case: &C13Case, fd: i32) {
         // take the number for an unrelated pipe and go on living
         let mut p = [0i32; 2];
         unsafe { libc::pipe(p.as_mut_ptr()) };
+        retake(&mut p, w);
         let same = p[0] == w || p[1] == w;
         for _ in 0..5 {
             unsafe { libc::raise(SIG) };
@@ -418,6 +449,9 @@ pub fn run_probe(case: &C13Case) -> CaseReport {
     rep.sample = Some(json!({"case": case, "records": recs, "end": format!("{:?}", end)}));
     let kindname = ["pipe", "unix-stream", "unix-dgram", "seqpacket", "iterator-backend"][case.kind as usize % 5];
     rep.class(kindname);
+    if case.k % 3 == 0 {
+        rep.class("descriptor-numbers-above-1100");
+    }
     if recs.iter().any(|r| r["k"] == "infra") {
         rep.inconclusive = Some(format!("{:?}", recs.iter().find(|r| r["k"] == "infra")));
         return rep;
